@@ -52,7 +52,6 @@ def run_r1(ctx, rule):
 
 # ---- R2 ---------------------------------------------------------------------------------------
 RESIDUAL = {
-    ("flussab::deferred_reader::DeferredReader::advance_with_buf", "Sub", "pos_in_buf"): "pos_in_buf was just increased by n by advance(n) (C02-R2)",
     ("flussab::deferred_reader::DeferredReader::advance_unchecked", "Sub", "valid_len"): "unsafe fn: the caller guarantees n <= buf_len() (debug-asserted)",
     ("flussab::text::LineReader::give_up_at_cold", "Sub", "position"): "position >= line_start: decided by C08-R1 (mark set on the current line) and C08-R2 (line start never ahead of the cursor)",
     ("flussab::text::swar_ascii_digits_u64_le", "DivisionByZero", ""): "division by the constant 8",
@@ -206,6 +205,54 @@ def counter_bound(f, bi, e):
     return (k * bound, "%s starts at %d, steps by 1, and continues only while %s" % (sy.show(("l", cl)), inits[0], " / ".join(sorted(set(why)))))
 
 
+def affine_nonneg(facts, f, bi, t):
+    """a - b, evaluated as affine forms over the entry values of the receiver's fields and the arguments along every
+    acyclic path to the subtraction: discharged when the difference is a non-negative combination of those (unsigned)
+    entry values on each path and no wrapping operation fed into it  (`pos_in_buf - n` right behind `advance(n)`,
+    which added n: the difference is the old cursor)"""
+    from .aff import PathExec, Aff
+    c = cfg(f)
+    n = 0
+    why = None
+    try:
+        paths = list(c.paths(limit=400))
+    except Exception:
+        return None
+    # effects of the reader's own field-writing methods at their call sites (all returning paths of the callee agree,
+    # recomputed from its body: C02-R2 decides the same laws)
+    from .c02 import auto_summary
+    summ = {}
+    for bb, t2 in f.calls():
+        cn = norm(util.cname(t2))
+        if cn.startswith("flussab::deferred_reader::DeferredReader::") and cn != norm(f.id):
+            try:
+                sm = auto_summary(facts, cn.rsplit("::", 1)[-1])
+            except Exception:
+                sm = None
+            if sm is not None:
+                summ[cn] = sm
+    for p, cut in paths:
+        if bi not in p:
+            continue
+        pre = p[: p.index(bi) + 1]
+        ex = PathExec(facts, f, summ)
+        st = ex.run_path(pre)
+        if st.infeasible:
+            continue
+        if any(e[0] == "call" and e[2][0].rsplit("::", 1)[-1].startswith(("wrapping_", "overflowing_")) for e in st.events):
+            return None
+        a = ex.operand(st, t["ops"][0])
+        b = ex.operand(st, t["ops"][1])
+        if not isinstance(a, Aff) or not isinstance(b, Aff):
+            return None
+        d = a - b
+        if d.c < 0 or any(v < 0 for v in d.t.values()) or any(not (k.endswith("@0") or k.startswith("arg")) for k in d.t):
+            return None
+        n += 1
+        why = "a - b = %s on every path (%d)" % (d, n)
+    return ("affine", why) if n else None
+
+
 def scan_index_discharge(f, bi, a, b):
     """a - b where the bound follows from "an index found by scanning a slice lies inside that slice" (recomputed from
     the code: which slice was scanned, how long it is)"""
@@ -308,6 +355,10 @@ def discharge(facts, tn, f, bi, t, guard_rows):
         r = scan_index_discharge(f, bi, a, b)
         if r is not None:
             return r
+        if nid.startswith("flussab::deferred_reader::DeferredReader::"):
+            r = affine_nonneg(facts, f, bi, t)
+            if r is not None:
+                return r
     # residual table
     shown = sy.show(a)
     for (rf, rop, rpre), why in RESIDUAL.items():
